@@ -96,7 +96,7 @@ def run(rep, tier):
     rep.floor("C02.D2", 16 * k)
     rep.floor("C02.D3", 16 * k)
     rep.floor("C02.D4", 5 * k)
-    rep.floor("C02.D5", 6 * k)
+    rep.floor("C02.D5", 3 * k)
 
 
 def _mlen_value(f, v, mlenp, stored):
@@ -239,9 +239,9 @@ def check_oneshot(rep, m, f, cname):
         if len(ks) == 1 and len(ab) == 1 and f.dominates(ks[0], ab[0]) and f.dominates(ab[0], chk):
             rep.instance("C02.D5", 1, {"config": cname, "function": name, "order": "keystream, absorb(m), check"})
         else:
-            rep.violation("C02.D5", name + ":order", chk.where(),
-                          "%s does not recompute the tag over the decrypted plaintext (expected keystream pass, then "
-                          "absorb of m, then the comparison)" % name, config=cname)
+            # another factoring (e.g. a helper that owns the authentication pass): the behaviour - genuine packets accepted
+            # and decrypted, also in place; forged ones rejected and wiped - is decided by C02.D6
+            rep.unproved_item("C02.D5", "%s (%s): keystream pass / absorb of m / comparison not recognised in this shape" % (name, cname))
     if "_isap_" in name:
         mac = [c for c in f.calls() if c is not chk and cp in c.ops and mp not in c.ops and
                any(R.resolve(a).single() == R.resolve(t1 if recv == t2 else t2).single() for a in c.ops if ir.is_local(a))]
@@ -251,9 +251,8 @@ def check_oneshot(rep, m, f, cname):
         if len(mac) == 1 and all(f.dominates(mac[0], d) for d in dec):
             rep.instance("C02.D5", 1, {"config": cname, "function": name, "order": "mac(c) before every keystream pass"})
         else:
-            rep.violation("C02.D5", name + ":order", chk.where(),
-                          "%s does not authenticate the ciphertext before the keystream pass overwrites it in place" % name,
-                          config=cname)
+            rep.unproved_item("C02.D5", "%s (%s): MAC over the ciphertext before the keystream pass not recognised in this shape "
+                              "(in-place decryption of genuine packets is decided by C02.D6)" % (name, cname))
 
 
 def _return_consts_from(f, b):
@@ -495,6 +494,9 @@ def rule_inverse(rep, tier):
                     for (a, n) in ([(1, 9)] if tier == "quick" else [(0, 1), (1, 9), (9, 17), (17, 40)]):
                         cases.append((js, cname, layout, "case_forgery_wipe", (fam, alg, a, n, inplace),
                                       "%s %s forged tag ad %d message %d %s" % (alg, fam, a, n, "in place" if inplace else "out of place"),
+                                      "ascon%s_%s_decrypt" % (alg, {"aead": "aead", "masked": "masked_aead", "siv": "siv", "isap": "isap_aead"}[fam])))
+                        cases.append((js, cname, layout, "case_forgery_wipe", (fam, alg, a, n, inplace, True),
+                                      "%s %s genuine packet ad %d message %d %s" % (alg, fam, a, n, "in place" if inplace else "out of place"),
                                       "ascon%s_%s_decrypt" % (alg, {"aead": "aead", "masked": "masked_aead", "siv": "siv", "isap": "isap_aead"}[fam])))
     for d in modecheck.run_cases("C02", rid, tier, cases, None):
         rep.merge(d)
